@@ -180,6 +180,37 @@ PROPS = {
         "assumptions": COMMON_ASSUMPTIONS + ["the harness recomputes the cost model only to label cases with the (c, nbSplits) "
                                              "they exercise", "NumCPU > 16 is emulated by NbTasks up to 1100"],
     },
+    "C14": {
+        "test": "TestC14", "variant": "elem",
+        "quick": {"shards": 16, "timeout": 1200},
+        "thorough": {"shards": 16, "timeout": 7200},
+        "rule": "histories of 0..64 operations over {DomainSep, AppendMessage, AppendScalar, AppendPoint, ChallengeScalar} with "
+                "labels/messages from {empty, short text, 31..4096 random bytes incl. 1023/1024/1025, zero bytes}, scalars by "
+                "recipe, points from every source and representation (optionally appended through one reused variable), four "
+                "protocol labels; each history is run twice and once more with one change (label / message / swap of two "
+                "self-delimiting operations / protocol label / dropped operation). Non-trivial = >= 2 challenges, or > 1024 "
+                "pending bytes, or an empty message, or a non-normalised point; distinct by the history.",
+        "oracle": "model-based: the reference transcript (one byte buffer + crypto/sha256, little-endian reduction mod r, "
+                  "re-absorption under the challenge label, anchored to the five published vectors) executes the same history; "
+                  "every challenge must be equal; identical histories give identical challenges; a change that alters the "
+                  "reference's final challenge must alter go-ipa's",
+        "assumptions": COMMON_ASSUMPTIONS,
+    },
+    "C20": {
+        "test": "TestC20", "variant": "elem",
+        "quick": {"shards": 16, "timeout": 1500,
+                  "matrix": [{"cpus": c} for c in (16, 1, 2, 3, 5, 16, 7, 1, 16, 2, 3, 16, 5, 11, 13, 16)]},
+        "thorough": {"shards": 32, "timeout": 10800, "matrix": [{"cpus": c} for c in range(1, 17)]},
+        "rule": "exhaustive grid (n, m): quick n in 0..512 x m in 1..64 plus a seed-selected band of 48 values of n with all m in "
+                "1..300; thorough the full 0..2048 x 1..300; plus the default worker limit for every n under NumCPU in 1..16 "
+                "(taskset); plus rapid cases with per-invocation delays (Gosched bursts / short sleeps) inside the work "
+                "function. Non-trivial (counted, distinct by construction for the grid) = n > m and n mod m != 0.",
+        "oracle": "validity predicate over the recorded multiset of (start,end): sorted ranges contiguous and disjoint, union "
+                  "exactly [0,n), none empty/inverted/out of bounds, count <= min(n,m); finished == started at the moment "
+                  "Execute returns and no invocation starts afterwards; watchdog",
+        "assumptions": COMMON_ASSUMPTIONS + ["'returns only after every invocation has returned' is schedule-dependent: delays "
+                                             "make an early return observable with high probability, not certainty"],
+    },
     "C16": {
         "test": "TestC16", "variant": "elem",
         "quick": {"shards": 16, "timeout": 900},
